@@ -63,6 +63,58 @@ def resolve(kind, mask):
     return (top, sub), (etop, esub), present
 
 
+def resolve_pm(name, machine, mask, noise):
+    """the same eight sources for a PER-MACHINE builtin option (pkg_config_path, cmake_prefix_path) in a cross build: the
+    sources speak of the tested machine's key; with `noise` every source also gives another value for the OTHER machine, which
+    must not leak"""
+    from mesonbuild.options import OptionStore, OptionKey
+    from mesonbuild.mesonlib import MachineChoice
+    M = MachineChoice.BUILD if machine == 'build' else MachineChoice.HOST
+    other = MachineChoice.HOST if machine == 'build' else MachineChoice.BUILD
+    K = lambda sub=None, m=M: OptionKey(name, sub, m)
+    present = {s: bool(mask >> i & 1) for i, s in enumerate(SRC)}
+    val = {s: f'/{machine}/{s}' for s in SRC}
+    st = OptionStore(True)
+    st.init_builtins()
+    top_pd, cmd, mf, own, spc = {}, {}, {}, {}, {}
+    where = {'parent_opt': (top_pd, None), 'parent_subopt': (top_pd, 'sub'), 'mf_opt': (mf, None), 'mf_subopt': (mf, 'sub'), 'cmd_opt': (cmd, None),
+             'cmd_subopt': (cmd, 'sub'), 'own_opt': (own, None), 'spcall_opt': (spc, None)}
+    for s_, (d, sub) in where.items():
+        if present[s_]:
+            d[K(sub)] = val[s_]
+        if noise:
+            d[K(sub, other)] = f'/other/{s_}'
+    st.initialize_from_top_level_project_call(top_pd, cmd, mf)
+    top = st.get_value_for(K())
+    st.initialize_from_subproject_call('sub', spc, own, cmd, mf)
+    sub = st.get_value_for(K('sub'))
+    top2 = st.get_value_for(K())
+    etop = []
+    for s_ in ('parent_opt', 'mf_opt', 'cmd_opt'):
+        if present[s_]:
+            etop = [val[s_]]
+    esub = etop
+    for s_ in SRC:
+        if present[s_]:
+            esub = [val[s_]]
+    return (top, sub, top2), (etop, esub, etop), present
+
+
+def _pm_chunk(chunk):
+    fails, nt = [], 0
+    for name, machine, mask, noise in chunk:
+        try:
+            got, exp, present = resolve_pm(name, machine, mask, noise)
+        except Exception as ex:
+            fails.append({'case': {'option': name, 'machine': machine, 'mask': mask, 'noise': noise}, 'stage': 'per-machine', 'detail': f'{type(ex).__name__}: {ex}'})
+            continue
+        nt += 1
+        if got != exp:
+            fails.append({'case': {'option': name, 'machine': machine, 'mask': mask, 'noise': noise, 'sources': [s for s in SRC if present[s]]}, 'stage': 'per-machine',
+                          'detail': f'cross build, {machine} machine: (top-level, subproject, top-level afterwards) values {got!r}, documented precedence gives {exp!r}'})
+    return len(chunk), nt, fails
+
+
 def _prec_chunk(chunk):
     fails, nt = [], 0
     for kind, mask in chunk:
@@ -296,6 +348,11 @@ def run(REG, tier, seed, jobs):
     parts.append({'name': 'C07/bounded/precedence-all-source-subsets', 'function': 'OptionStore.initialize_from_top_level_project_call / initialize_from_subproject_call',
                   'bound': f'all 2^8 subsets of the eight value sources x option kinds {kinds}', 'evaluations': ev, 'distinct_nontrivial': nt,
                   'rule': 'non-trivial: at least two sources present', 'exhaustive': True, 'failures': fails})
+    pcases = [(n, m, mask, noise) for n in ('pkg_config_path', 'cmake_prefix_path') for m in ('host', 'build') for mask in range(256) for noise in (False, True)]
+    ev, nt, fails = pmap(_pm_chunk, chunked(iter(pcases), 64), jobs)
+    parts.append({'name': 'C07/bounded/per-machine-options-in-cross-builds', 'function': 'OptionStore.initialize_from_top_level_project_call / initialize_from_subproject_call / get_value_for (is_cross)',
+                  'bound': 'all 2^8 subsets of the eight value sources x {pkg_config_path, cmake_prefix_path} x {host, build} machine key x (the other machine silent / set by every source to another value), cross build, real builtin options',
+                  'evaluations': ev, 'distinct_nontrivial': nt, 'rule': 'every case', 'exhaustive': True, 'failures': fails})
     bts = list(BT)
     cases = [(bs, bt, ds, d, o) for bs in (None, 'pd', 'mf', 'cmd') for bt in (bts if bs else ['debug']) for ds in (None, 'pd', 'mf', 'cmd') for d in (['true', 'false'] if ds else ['true'])
              for o in ('fwd', 'rev')]
@@ -327,6 +384,7 @@ def run(REG, tier, seed, jobs):
 
 
 CHECKS = {
+    'C07/bounded/per-machine-options-in-cross-builds': (_pm_chunk, lambda c: (c['option'], c['machine'], c['mask'], c['noise'])),
     'C07/bounded/precedence-all-source-subsets': (_prec_chunk, lambda c: (c['kind'], c['mask'])),
     'C07/bounded/yielding-option-explicit-value': (_yield_chunk, lambda c: (c['parent_value'], c['explicit_sub_value'], c['source'])),
     'C07/bounded/yielding-only-between-options-of-the-same-kind': (_yieldkind_chunk, lambda c: (c['top_level_kind'], c['subproject_kind'])),
